@@ -109,6 +109,7 @@ def run(ctx) -> None:
     ctx.rule("R2", "assert_not_dirty returns normally iff (allow_dirty or no dirty file) and no dirty pattern file; otherwise exits non-zero")
     ctx.rule("R3", "status lines are parsed by fixed columns compatible with the porcelain grammar")
     ctx.rule("R4", "a status line is dropped only when untracked ('??') and not a pattern file")
+    ctx.rule("R5", "the VCS is detected wherever git works: the `.git` marker is tested for existence, not for being a directory")
 
     # ------------------------------------------------------------------ R1
     upd = prog.function("cli._update")
@@ -362,3 +363,30 @@ def run(ctx) -> None:
               "vcs template git/status is not the porcelain format", f"{tmpl['git'].get('status')!r}", loc="src/bumpver/vcs.py")
     if "hg" in tmpl:
         ctx.observe("hg marks untracked files with '?', the filter compares with '??' (hg is outside C11's quantifier)")
+
+    # ------------------------------------------------------------------ R5
+    # the dirty check runs only if the VCS is found; in a linked worktree or a submodule `.git` is a regular file
+    iu = prog.function("vcs.VCSAPI.is_usable")
+    ctx.visit(iu.fq)
+    KIND_TESTS = {"isdir": "a directory", "isfile": "a regular file", "islink": "a symbolic link", "is_dir": "a directory", "is_file": "a regular file",
+                  "is_symlink": "a symbolic link", "ismount": "a mount point", "listdir": "a directory (listdir)", "scandir": "a directory (scandir)"}
+    n_marker = 0
+    for c in ast.walk(iu.node):
+        if not (isinstance(c, ast.Call) and isinstance(c.func, ast.Attribute)):
+            continue
+        operands = list(c.args) + [c.func.value]
+        on_marker = any("self.name" in unparse(shapes.inline(iu, o, prog)) and not unparse(o).startswith("self.subcommands") for o in operands
+                        if not (isinstance(o, ast.Name) and o.id in ("os", "sp", "subprocess")) and not unparse(o).startswith("os.path"))
+        if not on_marker:
+            continue
+        if c.func.attr in ("exists", "lexists"):
+            n_marker += 1
+            ctx.ok("R5", f"is_usable: marker tested with {c.func.attr}() (file or directory)")
+        elif c.func.attr in KIND_TESTS:
+            n_marker += 1
+            ctx.bad("R5", "vcs.VCSAPI.is_usable: the VCS marker must be " + KIND_TESTS[c.func.attr],
+                    f"`{unparse(c)}`: in a linked git worktree and in a submodule `.git` is a regular file, so no VCS is found there: "
+                    f"with commit = true the dirty check is skipped and files of a dirty tree are rewritten", loc=iu.loc(c),
+                    witness={"layout": "git worktree add ../wt; cd ../wt  (.git is a file `gitdir: ...`)"}, what="is_usable: marker tested for existence only")
+    if n_marker == 0:
+        ctx.observe("is_usable: no file-system test of the marker; detection rests on the is_usable command alone")
